@@ -351,6 +351,9 @@ fn scenario(t: &SignTrace, plan: &BTreeMap<usize, SignerFault>, rngf: Option<&Rn
         o.count("ops", 1);
         o.count(&format!("op_{}", op.kind()), 1);
         let tag = match &res.ret {
+            // a key rcgen generated itself is not reproducible (aws-lc-rs randomness is not behind
+            // the seam), so its certificate's digest stays out of the event log
+            Ret::Ok(_) if matches!(op, Op::Simple { .. }) => "ok (generated key)".to_string(),
             Ret::Ok(d) => format!("ok tbs={}", tbs_digest(d)),
             Ret::Err(e) => format!("err:{e}"),
             Ret::Panic(p) => format!("panic:{}", p.chars().take(80).collect::<String>()),
